@@ -121,6 +121,83 @@ func c15Elem(r *rand.Rand, typ string, size int) string {
 
 var c15JsoncObjects bool
 
+// c15ForeachDeviation: does the output match what the recorded finding produces?
+func c15ForeachDeviation(shape string, elems []string, stdout string, exit int) bool {
+	if exit != 0 {
+		return false
+	}
+	var want strings.Builder
+	switch shape {
+	case "empty-element":
+		for _, s := range elems {
+			if s != "" {
+				want.WriteString("[" + s + "]\n")
+			}
+		}
+		if stdout == want.String() {
+			return true
+		}
+		fallthrough // a generic list may carry both shapes
+	case "generic-inner-space":
+		// elements with inner spaces are re-spaced: equal after collapsing runs of spaces
+		collapse := func(s string) string { return strings.Join(strings.Fields(s), " ") }
+		var w []string
+		for _, s := range elems {
+			if s != "" {
+				w = append(w, collapse("["+s+"]"))
+			}
+		}
+		g := strings.Split(strings.TrimSuffix(stdout, "\n"), "\n")
+		if len(w) == 0 {
+			return stdout == ""
+		}
+		if len(g) != len(w) {
+			return false
+		}
+		for i := range g {
+			if collapse(g[i]) != w[i] {
+				return false
+			}
+		}
+		return true
+	}
+	return true
+}
+
+// c15ArrayDeviation: does the read-back list match what the recorded finding produces?
+func c15ArrayDeviation(shape string, elems []string, o *c15Out) bool {
+	switch shape {
+	case "jsonc-multiple-elements":
+		if o.WriteErr != "" || o.ReadErr != "" || len(o.Got) != len(elems) {
+			return false
+		}
+		for i := range elems {
+			if strings.TrimLeft(o.Got[i], "\n ") != elems[i] {
+				return false
+			}
+		}
+		return true
+	case "json-empty-list":
+		return o.WriteErr == "no data returned" && len(o.Got) == 0
+	case "yaml-element-needs-quoting":
+		// raw text such as `'q` can make the whole document unreadable
+		if o.WriteErr == "" && strings.HasPrefix(o.ReadErr, "yaml:") {
+			return true
+		}
+		// otherwise: same number of elements, and every plain element intact
+		if o.WriteErr != "" || o.ReadErr != "" || len(o.Got) != len(elems) {
+			return false
+		}
+		for i := range elems {
+			if yamlPlain(elems[i]) && o.Got[i] != elems[i] {
+				return false
+			}
+		}
+		return true
+	}
+	return true
+}
+
 var c15Asserted = map[string]bool{"str": true, "string": true, "generic": true, "*": true, "json": true, "jsonl": true, "jsonc": true, "yaml": true, "path": true, "paths": true}
 
 func init() {
@@ -297,7 +374,7 @@ func init() {
 					if len(got) != len(e.Elems) {
 						cls = "wrong-count"
 					}
-					if e.Shape != "" {
+					if e.Shape != "" && c15ForeachDeviation(e.Shape, e.Elems, string(run.Stdout), run.Exit) {
 						cls = "known-shape:" + e.Shape
 					}
 					x.Viol("foreach:"+e.Type+":"+cls, fmt.Sprintf("foreach over a %s list of %d elements %q printed %q (exit %d, stderr %q)", e.Type, len(e.Elems), trunc(fmt.Sprint(e.Elems), 300), trunc(string(run.Stdout), 300), run.Exit, trunc(string(run.Stderr), 200)), c, string(run.Stdout), want.String())
@@ -315,7 +392,7 @@ func init() {
 			}
 			if o.WriteErr != "" || o.ReadErr != "" || !sameList(o.Got, e.Elems) {
 				sig := "array:" + e.Type + ":mismatch"
-				if e.Shape != "" {
+				if e.Shape != "" && c15ArrayDeviation(e.Shape, e.Elems, &o) {
 					sig = "array:" + e.Type + ":known-shape:" + e.Shape
 				} else if len(o.Got) != len(e.Elems) {
 					sig = "array:" + e.Type + ":count"
